@@ -45,9 +45,15 @@ pub fn run(args: &Args) -> Option<i32> {
     }
 }
 
+/// Quick-tier workloads run at QUICK_PCT % of the sizes the `require` minimums were calibrated for;
+/// the minimums are scaled with them (a little lower, so that rare classes stay above the bar).
+const QUICK_PCT: u64 = 60;
+static REQUIRE_PCT: std::sync::atomic::AtomicU64 = std::sync::atomic::AtomicU64::new(100);
+
 fn require_both(mon: &mut Monitor, key: &str, min: u64) {
+    let pct = REQUIRE_PCT.load(std::sync::atomic::Ordering::Relaxed);
     for w in WIDTHS {
-        mon.require(&format!("{w} {key}"), min);
+        mon.require(&format!("{w} {key}"), (min.saturating_mul(pct) / 100).max(1));
     }
 }
 
@@ -61,7 +67,11 @@ fn workload(args: &Args, quick: u64, thorough: u64) -> u64 {
         .get("workload-pct")
         .and_then(|v| v.parse::<u64>().ok())
         .unwrap_or(100);
-    (args.scale(quick, thorough).saturating_mul(pct) / 100).max(1)
+    let tier_pct = if args.is_thorough() { 100 } else { QUICK_PCT };
+    if !args.is_thorough() {
+        REQUIRE_PCT.store(QUICK_PCT * 85 / 100, std::sync::atomic::Ordering::Relaxed);
+    }
+    (args.scale(quick, thorough).saturating_mul(pct).saturating_mul(tier_pct) / 10_000).max(1)
 }
 
 const ASSUME_SCALE: &str = "token amounts and prices are generated at the magnitudes of the repository's own tests (u64/9: amounts up to ~1e11 base units at prices 1..5000; u128/20: 9-decimal tokens at 1e7..1e14 price units), plus boundary / oversized amounts that the model must refuse; prices always satisfy 0 < min <= max";
